@@ -34,7 +34,7 @@ func harnessC01History() {
 	r1, e3 := a.Encrypt(q)
 	verif_assert(e1 == nil && e2 == nil && e3 == nil, "C01/encrypt-ok")
 	got1, got2 := false, false
-	for step := 0; step < 3; step++ {
+	for step := 0; step < c01Deliveries; step++ {
 		kind := verif_choose(5)
 		var frame []byte
 		switch kind {
